@@ -52,6 +52,10 @@ def cases(tier, seed):
             out.append({"id": f"{i}|stationary", "fv": fv, "law": "stationary", "seed": seed, "tier": tier})
         if fv["h"] != "none":
             out.append({"id": f"{i}|degenerate", "fv": fv, "law": "degenerate", "seed": seed, "tier": tier})
+    # states without any feasible choice (value -inf, supported in one-period models): a*(-inf)+b = -inf
+    for extra in ({}, {"e": 1}, {"filt": "none"}):
+        fv = family.normalise(dict(family.BASE, cons="tight", T=1, **extra))
+        out.append({"id": f"{e1.fv_id(fv)}|affine", "fv": fv, "law": "affine", "seed": seed, "tier": tier})
     if tier == "thorough":
         for name in ("iskhakov_et_al_2017", "iskhakov_et_al_2017_stripped_down", "iskhakov_et_al_2017_discrete"):
             out.append({"id": f"upstream-{name}|affine", "upstream": name, "law": "affine", "seed": seed})
